@@ -1,15 +1,16 @@
 #!/bin/bash
 # Run checks against a seeded change: tools/runseeded.sh <name> <ID> [<ID> ...]
-# Applies the patch to /repo, runs the quick tier of each check, and always reverts.
+# The patch is applied in a scratch worktree of /repo HEAD under /tmp (never in /repo itself, so that
+# background runs against /repo are not disturbed); evidence and replays of such runs go to /tmp.
 set -u
 name=$1; shift
-cd /repo || exit 2
-if [ -n "$(git status --porcelain --untracked-files=no)" ]; then echo "/repo is dirty"; exit 2; fi
-git apply /verif/seeded/$name/patch.diff || exit 2
-trap 'git -C /repo checkout -- . ' EXIT
+wt=/tmp/rs_${name}_$$
+git -C /repo worktree add -q --detach $wt HEAD || exit 2
+trap 'git -C /repo worktree remove --force '$wt EXIT
+(cd $wt && git apply /verif/seeded/$name/patch.diff) || exit 2
 cd /verif
 for id in "$@"; do
-  out=$(/venv/bin/python -m hplverif.run $id --tier ${TIER:-quick} 2>&1); rc=$?
+  out=$(HPL_REPO_DIR=$wt /venv/bin/python -m hplverif.run $id --tier ${TIER:-quick} 2>&1); rc=$?
   echo "== $name vs $id: rc=$rc"
   echo "$out" | grep -E "^VIOLATION|^KNOWN|HARNESS|signature|cases," | head -12
 done
